@@ -123,15 +123,222 @@ type c19Stats struct {
 	nontrivial                                                               bool
 }
 
+// c19Crashed is the pseudo key step returns when the (fault injecting) store
+// stopped during the operation; see c19_crash_test.go.
+const c19Crashed = "crashed"
+
+// c19Sess is one real ChainIndex plus the model (sets of heights) driven side by side.
+type c19Sess struct {
+	c   c19Case
+	st  *c19Stats
+	ctx context.Context
+	db  database.Database
+	ci  *chainindex.ChainIndex[*c19Blk]
+	// reopenStore closes and reopens the store itself before a "reopen" op (pebble); nil = keep it
+	reopenStore func() error
+	// crashed reports that the store "died" (write-level crash enumeration); nil = healthy store
+	crashed func() bool
+
+	// model
+	W        uint64
+	L        uint64
+	accepted bool
+	ever     map[uint64]bool // heights ever written (or possibly written by an interrupted operation)
+	must     map[uint64]bool // heights that have to be retrievable now
+	sawGap   bool
+}
+
+func newC19Sess(c c19Case, st *c19Stats, db database.Database) *c19Sess {
+	return &c19Sess{c: c, st: st, ctx: context.Background(), db: db, W: c.Window, ever: map[uint64]bool{}, must: map[uint64]bool{}}
+}
+
+// open creates a new ChainIndex over the session's store with window w.
+func (s *c19Sess) open(w uint64) error {
+	ci, err := chainindex.New[*c19Blk](s.ctx, logging.NoLog{}, prometheus.NewRegistry(),
+		chainindex.Config{AcceptedBlockWindow: w, BlockCompactionFrequency: s.c.Freq}, c19Parser{}, s.db)
+	if err != nil {
+		return err
+	}
+	s.ci = ci
+	return nil
+}
+
+func (s *c19Sess) isCrashed() bool { return s.crashed != nil && s.crashed() }
+
+// prune: everything that is at or below L-W may be gone (never genesis)
+func (s *c19Sess) prune() {
+	if s.W == 0 || s.L <= s.W {
+		return
+	}
+	for h := range s.must {
+		if h != 0 && h <= s.L-s.W {
+			delete(s.must, h)
+		}
+	}
+}
+
+// check compares all four lookups of every height ever written (and its
+// neighbours) with the model.
+func (s *c19Sess) check(when string, bound bool) (string, string) {
+	ctx, ci, c, st := s.ctx, s.ci, s.c, s.st
+	if s.accepted {
+		got, err := ci.GetLastAcceptedHeight(ctx)
+		if err != nil || got != s.L {
+			return "C19/last-accepted-mismatch", fmt.Sprintf("%s: GetLastAcceptedHeight=(%d,%v) want %d", when, got, err, s.L)
+		}
+	}
+	probe := map[uint64]bool{}
+	for h := range s.ever {
+		probe[h] = true
+		probe[h+1] = true
+		if h > 0 {
+			probe[h-1] = true
+		}
+	}
+	hs := make([]uint64, 0, len(probe))
+	for h := range probe {
+		hs = append(hs, h)
+	}
+	sort.Slice(hs, func(i, j int) bool { return hs[i] < hs[j] })
+	retained := 0
+	for _, h := range hs {
+		st.probes++
+		want := c19Make(c.Salt, h)
+		blk, e1 := ci.GetBlockByHeight(ctx, h)
+		id, e2 := ci.GetBlockIDAtHeight(ctx, h)
+		hh, e3 := ci.GetBlockIDHeight(ctx, want.id)
+		blk2, e4 := ci.GetBlock(ctx, want.id)
+		for i, e := range []error{e1, e2, e3, e4} {
+			if e != nil && !errors.Is(e, database.ErrNotFound) {
+				return "C19/lookup-error", fmt.Sprintf("%s: lookup %d of height %d failed with %v", when, i, h, e)
+			}
+		}
+		p1, p2, p3, p4 := e1 == nil, e2 == nil, e3 == nil, e4 == nil
+		if p1 != p2 || p1 != p3 || p1 != p4 {
+			return "C19/mapping-inconsistent", fmt.Sprintf("%s: height %d: byHeight=%v idAtHeight=%v idHeight=%v byID=%v", when, h, p1, p2, p3, p4)
+		}
+		if p1 {
+			if !s.ever[h] {
+				return "C19/phantom-block", fmt.Sprintf("%s: height %d was never stored but is served", when, h)
+			}
+			if blk.h != h || blk.id != want.id || id != want.id || hh != h || blk2.h != h || blk2.id != want.id {
+				return "C19/mapping-inconsistent", fmt.Sprintf("%s: height %d: byHeight=(%d,%s) idAtHeight=%s idHeight=%d byID=(%d,%s) want id %s",
+					when, h, blk.h, blk.id, id, hh, blk2.h, blk2.id, want.id)
+			}
+			// a block above the last accepted height can only be the write of an
+			// interrupted accept (crash enumeration); it is not counted as retained
+			if h != 0 && (!s.accepted || h <= s.L) {
+				retained++
+			}
+		} else if s.must[h] {
+			if h == 0 {
+				return "C19/genesis-missing", fmt.Sprintf("%s: genesis is not retrievable", when)
+			}
+			return "C19/window-block-missing", fmt.Sprintf("%s: height %d (last accepted %d, window %d) is not retrievable", when, h, s.L, s.W)
+		}
+	}
+	if bound && s.W > 0 && uint64(retained) > s.W+1 {
+		return "C19/retention-bound-exceeded", fmt.Sprintf("%s: %d non-genesis blocks retained with window %d (last accepted %d)", when, retained, s.W, s.L)
+	}
+	return "", ""
+}
+
+// commitAccept / commitHist: the model's view of a completed operation.
+func (s *c19Sess) commitAccept(h uint64) {
+	s.L, s.accepted = h, true
+	s.ever[h], s.must[h] = true, true
+	s.prune()
+}
+
+func (s *c19Sess) commitHist(h uint64) {
+	s.ever[h] = true
+	if s.W == 0 || h == 0 || s.L <= s.W || h > s.L-s.W {
+		s.must[h] = true
+	}
+}
+
+// step executes op i on the real index and on the model and (doCheck) compares
+// them. Returns violation key + detail of the first disagreement, or
+// (c19Crashed, "") when the store died during the operation (the model is then
+// still in the state before the operation).
+func (s *c19Sess) step(i int, o c19Op, doCheck bool) (string, string) {
+	ctx, st := s.ctx, s.st
+	when := fmt.Sprintf("after op %d %s(%d)", i, o.Kind, o.H+o.W)
+	switch o.Kind {
+	case "accept":
+		blk := c19Make(s.c.Salt, o.H)
+		gap := s.accepted && o.H != s.L+1
+		err := s.ci.UpdateLastAccepted(ctx, blk)
+		if s.isCrashed() {
+			return c19Crashed, ""
+		}
+		st.accepts++
+		if gap {
+			st.gaps++
+			s.sawGap = true
+		} else if s.sawGap {
+			st.acceptsAfterGap++
+		}
+		if err != nil {
+			if s.W > 0 && o.H > s.W && errors.Is(err, database.ErrNotFound) {
+				if _, gerr := s.ci.GetBlockIDAtHeight(ctx, o.H-s.W); errors.Is(gerr, database.ErrNotFound) {
+					return "C19/prune-target-missing", fmt.Sprintf("UpdateLastAccepted(height %d) with window %d failed: %v (height %d, the block it wants to prune, was never stored or is already gone)", o.H, s.W, err, o.H-s.W)
+				}
+			}
+			return "C19/accept-error", fmt.Sprintf("UpdateLastAccepted(height %d) with window %d failed on a healthy database: %v", o.H, s.W, err)
+		}
+		if s.W > 0 && o.H > s.W {
+			st.pruned++
+		}
+		s.commitAccept(o.H)
+		if doCheck {
+			return s.check(when, true)
+		}
+	case "hist":
+		blk := c19Make(s.c.Salt, o.H)
+		err := s.ci.SaveHistorical(blk)
+		if s.isCrashed() {
+			return c19Crashed, ""
+		}
+		st.hists++
+		if err != nil {
+			return "C19/save-historical-error", fmt.Sprintf("SaveHistorical(height %d) failed: %v", o.H, err)
+		}
+		s.commitHist(o.H)
+		if doCheck {
+			return s.check(when, false)
+		}
+	case "reopen":
+		if s.reopenStore != nil {
+			if err := s.reopenStore(); err != nil {
+				return "harness", err.Error()
+			}
+		}
+		err := s.open(o.W)
+		if s.isCrashed() {
+			return c19Crashed, ""
+		}
+		st.reopens++
+		if o.W != s.W {
+			st.reopenDiff++
+		}
+		if err != nil {
+			return "C19/reopen-error", fmt.Sprintf("New over the existing database with window %d failed: %v", o.W, err)
+		}
+		s.W = o.W
+		s.prune()
+		if doCheck {
+			return s.check(when, s.accepted)
+		}
+	}
+	return "", ""
+}
+
 // runC19 drives the real ChainIndex and the model (sets of heights) side by
 // side. Returns violation key + detail of the first disagreement.
 func runC19(c c19Case, st *c19Stats) (string, string) {
-	ctx := context.Background()
-	var (
-		db  database.Database
-		dir string
-	)
-	open := func() (database.Database, error) {
+	var dir string
+	openStore := func() (database.Database, error) {
 		if c.Backend == "pebble" {
 			p, err := pebble.New(dir, pebble.NewDefaultConfig(), prometheus.NewRegistry())
 			if err != nil {
@@ -149,166 +356,31 @@ func runC19(c c19Case, st *c19Stats) (string, string) {
 		dir = d
 		defer os.RemoveAll(dir)
 	}
-	db, err := open()
+	db, err := openStore()
 	if err != nil {
 		return "harness", "open db: " + err.Error()
 	}
-	defer func() { _ = db.Close() }()
-	newIndex := func(w uint64) (*chainindex.ChainIndex[*c19Blk], error) {
-		return chainindex.New[*c19Blk](ctx, logging.NoLog{}, prometheus.NewRegistry(),
-			chainindex.Config{AcceptedBlockWindow: w, BlockCompactionFrequency: c.Freq}, c19Parser{}, db)
+	s := newC19Sess(c, st, db)
+	defer func() { _ = s.db.Close() }()
+	if c.Backend == "pebble" {
+		s.reopenStore = func() error {
+			if err := s.db.Close(); err != nil {
+				return fmt.Errorf("close: %w", err)
+			}
+			ndb, err := openStore()
+			if err != nil {
+				return fmt.Errorf("reopen db: %w", err)
+			}
+			s.db = ndb
+			return nil
+		}
 	}
-	ci, err := newIndex(c.Window)
-	if err != nil {
+	if err := s.open(c.Window); err != nil {
 		return "C19/open-error", "New on an empty database: " + err.Error()
 	}
-
-	// model
-	var (
-		W        = c.Window
-		L        uint64
-		accepted bool
-		ever     = map[uint64]bool{} // heights ever written
-		must     = map[uint64]bool{} // heights that have to be retrievable now
-		sawGap   bool
-	)
-	prune := func() { // everything that is at or below L-W may be gone (never genesis)
-		if W == 0 || L <= W {
-			return
-		}
-		for h := range must {
-			if h != 0 && h <= L-W {
-				delete(must, h)
-			}
-		}
-	}
-	check := func(when string, bound bool) (string, string) {
-		if accepted {
-			got, err := ci.GetLastAcceptedHeight(ctx)
-			if err != nil || got != L {
-				return "C19/last-accepted-mismatch", fmt.Sprintf("%s: GetLastAcceptedHeight=(%d,%v) want %d", when, got, err, L)
-			}
-		}
-		probe := map[uint64]bool{}
-		for h := range ever {
-			probe[h] = true
-			probe[h+1] = true
-			if h > 0 {
-				probe[h-1] = true
-			}
-		}
-		hs := make([]uint64, 0, len(probe))
-		for h := range probe {
-			hs = append(hs, h)
-		}
-		sort.Slice(hs, func(i, j int) bool { return hs[i] < hs[j] })
-		retained := 0
-		for _, h := range hs {
-			st.probes++
-			want := c19Make(c.Salt, h)
-			blk, e1 := ci.GetBlockByHeight(ctx, h)
-			id, e2 := ci.GetBlockIDAtHeight(ctx, h)
-			hh, e3 := ci.GetBlockIDHeight(ctx, want.id)
-			blk2, e4 := ci.GetBlock(ctx, want.id)
-			for i, e := range []error{e1, e2, e3, e4} {
-				if e != nil && !errors.Is(e, database.ErrNotFound) {
-					return "C19/lookup-error", fmt.Sprintf("%s: lookup %d of height %d failed with %v", when, i, h, e)
-				}
-			}
-			p1, p2, p3, p4 := e1 == nil, e2 == nil, e3 == nil, e4 == nil
-			if p1 != p2 || p1 != p3 || p1 != p4 {
-				return "C19/mapping-inconsistent", fmt.Sprintf("%s: height %d: byHeight=%v idAtHeight=%v idHeight=%v byID=%v", when, h, p1, p2, p3, p4)
-			}
-			if p1 {
-				if !ever[h] {
-					return "C19/phantom-block", fmt.Sprintf("%s: height %d was never stored but is served", when, h)
-				}
-				if blk.h != h || blk.id != want.id || id != want.id || hh != h || blk2.h != h || blk2.id != want.id {
-					return "C19/mapping-inconsistent", fmt.Sprintf("%s: height %d: byHeight=(%d,%s) idAtHeight=%s idHeight=%d byID=(%d,%s) want id %s",
-						when, h, blk.h, blk.id, id, hh, blk2.h, blk2.id, want.id)
-				}
-				if h != 0 {
-					retained++
-				}
-			} else if must[h] {
-				if h == 0 {
-					return "C19/genesis-missing", fmt.Sprintf("%s: genesis is not retrievable", when)
-				}
-				return "C19/window-block-missing", fmt.Sprintf("%s: height %d (last accepted %d, window %d) is not retrievable", when, h, L, W)
-			}
-		}
-		if bound && W > 0 && uint64(retained) > W+1 {
-			return "C19/retention-bound-exceeded", fmt.Sprintf("%s: %d non-genesis blocks retained with window %d (last accepted %d)", when, retained, W, L)
-		}
-		return "", ""
-	}
-
 	for i, o := range c.Ops {
-		when := fmt.Sprintf("after op %d %s(%d)", i, o.Kind, o.H+o.W)
-		switch o.Kind {
-		case "accept":
-			blk := c19Make(c.Salt, o.H)
-			gap := accepted && o.H != L+1
-			err := ci.UpdateLastAccepted(ctx, blk)
-			st.accepts++
-			if gap {
-				st.gaps++
-				sawGap = true
-			} else if sawGap {
-				st.acceptsAfterGap++
-			}
-			if err != nil {
-				if W > 0 && o.H > W && errors.Is(err, database.ErrNotFound) {
-					if _, gerr := ci.GetBlockIDAtHeight(ctx, o.H-W); errors.Is(gerr, database.ErrNotFound) {
-						return "C19/prune-target-missing", fmt.Sprintf("UpdateLastAccepted(height %d) with window %d failed: %v (height %d, the block it wants to prune, was never stored or is already gone)", o.H, W, err, o.H-W)
-					}
-				}
-				return "C19/accept-error", fmt.Sprintf("UpdateLastAccepted(height %d) with window %d failed on a healthy database: %v", o.H, W, err)
-			}
-			if W > 0 && o.H > W {
-				st.pruned++
-			}
-			L, accepted = o.H, true
-			ever[o.H], must[o.H] = true, true
-			prune()
-			if k, d := check(when, true); d != "" {
-				return k, d
-			}
-		case "hist":
-			blk := c19Make(c.Salt, o.H)
-			st.hists++
-			if err := ci.SaveHistorical(blk); err != nil {
-				return "C19/save-historical-error", fmt.Sprintf("SaveHistorical(height %d) failed: %v", o.H, err)
-			}
-			ever[o.H] = true
-			if W == 0 || o.H == 0 || L <= W || o.H > L-W {
-				must[o.H] = true
-			}
-			if k, d := check(when, false); d != "" {
-				return k, d
-			}
-		case "reopen":
-			st.reopens++
-			if o.W != W {
-				st.reopenDiff++
-			}
-			if c.Backend == "pebble" {
-				if err := db.Close(); err != nil {
-					return "harness", "close: " + err.Error()
-				}
-				if db, err = open(); err != nil {
-					return "harness", "reopen db: " + err.Error()
-				}
-			}
-			ci, err = newIndex(o.W)
-			if err != nil {
-				return "C19/reopen-error", fmt.Sprintf("New over the existing database with window %d failed: %v", o.W, err)
-			}
-			W = o.W
-			prune()
-			if k, d := check(when, accepted); d != "" {
-				return k, d
-			}
+		if k, d := s.step(i, o, true); d != "" {
+			return k, d
 		}
 	}
 	return "", ""
@@ -451,7 +523,68 @@ func TestC19(t *testing.T) {
 			r.Sample(c)
 		}
 	}
+	// write-level crash enumeration (c19_crash_test.go)
+	var cstats c19CrashStats
+	judgeCrash := func(cc c19CrashCase) bool {
+		r.Eval()
+		cstats.points++
+		if cc.Variant == "applied" {
+			cstats.appliedVariant++
+		} else {
+			cstats.lostVariant++
+		}
+		var key, d string
+		r.Guard("chainindex-crash", cc, func() { key, d = runC19Crash(cc, &cstats) })
+		if key == "harness" {
+			r.Inconclusive("harness problem: %s", d)
+			return false
+		}
+		if d != "" {
+			r.Violation(key, cc, "%s  [history %s]", d, cc.Case.shape())
+			return false
+		}
+		if cc.CrashAt > 1 { // the store was not empty when the process died
+			r.Distinct("crash", cc.Case.shape(), cc.CrashAt, cc.Variant)
+		}
+		return true
+	}
+	crashEnum := func(c c19Case, krng interface{ IntN(int) int }, all, sample int) {
+		r.Eval()
+		var (
+			n      int
+			key, d string
+		)
+		r.Guard("chainindex", c, func() { n, key, d = countC19Ops(c, &stats) })
+		if key == "harness" {
+			r.Inconclusive("harness problem: %s", d)
+			return
+		}
+		if d != "" { // broken without any crash: reported under the ordinary key, nothing to enumerate
+			r.Violation(key, c, "%s  [history %s]", d, c.shape())
+			return
+		}
+		cstats.histories++
+		cstats.opsSeen += n
+		sampled := false
+		for _, k := range c19CrashPoints(krng, n, all, sample) {
+			for _, v := range []string{"lost", "applied"} {
+				cc := c19CrashCase{Case: c, CrashAt: k, Variant: v, Ops: n}
+				if judgeCrash(cc) && !sampled && k > 2 {
+					sampled = true
+					if cstats.histories%50 == 1 {
+						r.Sample(cc)
+					}
+				}
+			}
+		}
+	}
 	if rf := r.Replay(); rf != nil && len(rf.Witness) > 0 {
+		var cc c19CrashCase
+		if err := json.Unmarshal(rf.Witness, &cc); err == nil && cc.CrashAt > 0 && len(cc.Case.Ops) > 0 {
+			judgeCrash(cc)
+			r.Finish(0)
+			return
+		}
 		var c c19Case
 		if err := json.Unmarshal(rf.Witness, &c); err == nil && len(c.Ops) > 0 {
 			judge(c)
@@ -482,6 +615,50 @@ func TestC19(t *testing.T) {
 	for i := 0; i < np; i++ {
 		judge(genC19(prng, "pebble", 25))
 	}
+	// crash points: every store operation of the fixed scenarios and of short
+	// histories, a PRNG sample of the store operations of longer ones
+	krng := r.Rand("crash-points")
+	for _, c := range []c19Case{
+		{Backend: "memdb", Salt: 4, Window: 0, Freq: 1 << 40, Ops: []c19Op{
+			{Kind: "accept", H: 0}, {Kind: "accept", H: 1}, {Kind: "accept", H: 2}, {Kind: "accept", H: 3},
+		}},
+		{Backend: "memdb", Salt: 5, Window: 2, Freq: 1, Ops: []c19Op{
+			{Kind: "accept", H: 0}, {Kind: "accept", H: 1}, {Kind: "accept", H: 2}, {Kind: "accept", H: 3}, {Kind: "accept", H: 4}, {Kind: "accept", H: 5},
+		}},
+		{Backend: "memdb", Salt: 6, Window: 3, Freq: 8, Ops: []c19Op{
+			{Kind: "accept", H: 0}, {Kind: "accept", H: 1}, {Kind: "accept", H: 2}, {Kind: "accept", H: 100}, {Kind: "accept", H: 101},
+		}},
+		{Backend: "memdb", Salt: 7, Window: 1, Freq: 8, Ops: []c19Op{
+			{Kind: "accept", H: 0}, {Kind: "accept", H: 1}, {Kind: "accept", H: 2}, {Kind: "accept", H: 3}, {Kind: "reopen", W: 3}, {Kind: "accept", H: 4}, {Kind: "accept", H: 5},
+		}},
+		{Backend: "memdb", Salt: 8, Window: 2, Freq: 8, Ops: []c19Op{
+			{Kind: "accept", H: 0}, {Kind: "accept", H: 50}, {Kind: "hist", H: 49}, {Kind: "hist", H: 48}, {Kind: "hist", H: 47}, {Kind: "hist", H: 46}, {Kind: "hist", H: 45},
+			{Kind: "reopen", W: 2}, {Kind: "accept", H: 51}, {Kind: "accept", H: 52}, {Kind: "accept", H: 53},
+		}},
+	} {
+		crashEnum(c, krng, 1<<30, 0)
+	}
+	crng := r.Rand("crash-histories")
+	nc := r.N(1500, 30000)
+	for i := 0; i < nc; i++ {
+		crashEnum(genC19(crng, "memdb", r.N(20, 40)), krng, r.N(8, 48), r.N(8, 24))
+	}
+	r.Count("crash_histories", cstats.histories)
+	r.Count("crash_store_operations_seen", cstats.opsSeen)
+	r.Count("crash_points_enumerated", cstats.points)
+	r.Count("crash_points_operation_lost", cstats.lostVariant)
+	r.Count("crash_points_operation_applied_unacknowledged", cstats.appliedVariant)
+	r.Count("crash_reopen_successes", cstats.reopenOK)
+	r.Count("crash_interrupted_accepts", cstats.intAccept)
+	r.Count("crash_interrupted_historical_saves", cstats.intHist)
+	r.Count("crash_interrupted_reopens", cstats.intReopen)
+	r.Count("crash_last_accepted_is_previous", cstats.outcomeBefore)
+	r.Count("crash_last_accepted_is_interrupted_one", cstats.outcomeAfter)
+	r.Count("crash_no_last_accepted_yet", cstats.outcomeNil)
+	r.Count("crash_interrupted_ops_redone", cstats.redone)
+	r.Count("crash_history_ops_continued", cstats.tailOps)
+	r.Count("crash_next_heights_accepted", cstats.extraAccepts)
+	r.Count("crash_height_probes_after_reopen", cstats.post.probes)
 	r.Count("accepts", stats.accepts)
 	r.Count("accepts_after_gap_or_jump", stats.gaps)
 	r.Count("accepts_following_a_gap", stats.acceptsAfterGap)
